@@ -24,14 +24,20 @@ def run_h1srv(ctx, drv, cases, outdir, modes="buffered,streaming", idle="inloop,
     return traces, info["cases"]
 
 
-def rerun_h1srv(ctx, case_lines, module="H1ServerTrace", cfg="H1ServerTrace.cfg", driver="h1srv"):
+def rerun_h1srv_hist(ctx, seq, module="H1ServerTrace", cfg="H1ServerTrace.cfg", driver="h1srv"):
+    """re-run a sequence of recorded cases in order in one process"""
+    return rerun_h1srv(ctx, [cl[0] for cl in seq], module, cfg, driver, many=True)
+
+
+def rerun_h1srv(ctx, case_lines, module="H1ServerTrace", cfg="H1ServerTrace.cfg", driver="h1srv", many=False):
     drv = lib.go_build(driver)
-    c = json.loads(case_lines[0])
-    c.pop("ev", None)
     d = ctx.sub("rerun")
     cf = os.path.join(d, "case.ndjson")
     with open(cf, "w") as f:
-        f.write(json.dumps(c) + "\n")
+        for cl in (case_lines if many else case_lines[:1]):
+            c = json.loads(cl)
+            c.pop("ev", None)
+            f.write(json.dumps(c) + "\n")
     for old in glob.glob(os.path.join(d, "trace_*.ndjson")):
         os.remove(old)
     args = ["-cases", cf, "-out", d, "-chunks", 1]
